@@ -272,6 +272,37 @@ pub fn run_empty_and_truncated() -> Sweep {
     })
 }
 
+/// Headers with many entries and entries with many items: counts around the powers of two at which index arithmetic changes width.
+pub fn run_entry_counts() -> Sweep {
+    let counts: [usize; 12] = [2, 15, 16, 17, 255, 256, 257, 1000, 4095, 4096, 65_535, 65_536];
+    const COUNTED: [&str; 4] = ["index entries", "items of one INT32 entry", "items of one STRING_ARRAY entry", "bytes of one BIN entry"];
+    // (which header, what is counted: entries of the header / items of one INT32 / items of one string array / bytes of one BIN)
+    let n = (counts.len() * 4 * 2) as u64;
+    Sweep::new("entry-counts", format!("a header (as signature header and as main header) with n index entries, or with one INT32 / STRING_ARRAY / BIN entry of n items, for n ∈ {:?}: round trip byte for byte and true offsets", counts), n, move |i, acc| {
+        acc.evals += 1;
+        let in_sig = i % 2 == 1;
+        let what = (i / 2 % 4) as usize;
+        let c = counts[(i / 8) as usize];
+        let recs: Vec<(u32, Val)> = match what {
+            0 => (0..c).map(|k| (10_000 + k as u32, Val::Int32(vec![k as u32]))).collect(),
+            1 => vec![(1000, Val::str("n")), (1009, Val::Int32((0..c as u32).collect()))],
+            2 => vec![(1000, Val::str("n")), (1117, Val::StrArray((0..c).map(|k| format!("{}", k % 10).into_bytes()).collect()))],
+            _ => vec![(1000, Val::str("n")), (1043, Val::Bin((0..c).map(|k| k as u8).collect()))],
+        };
+        let h = RawHeader::layout(&recs);
+        let (x, _) = if in_sig { assemble(&RawLead::new("n"), &h, 0, &minimal_main(), b"pay") } else { assemble(&RawLead::new("n"), &minimal_sig(), 0, &h, b"pay") };
+        let case = || json!({"header": if in_sig { "signature" } else { "main" }, "counted": COUNTED[what], "n": c, "bytes_hex": if x.len() < 4096 { vlib::hex(&x) } else { String::new() }});
+        match oracle_roundtrip("entry-counts", &x, i, &case, acc) {
+            Some(p) => {
+                acc.nontrivial += 1;
+                oracle_offsets("entry-counts", &p, i, &case, acc);
+                acc.count("accepted");
+            }
+            None => acc.count("rejected by the parser (not judged)"),
+        }
+    })
+}
+
 /// The geometry of one entry: its offset and count moved to and beyond the edges of the data section, in either header.
 pub fn run_entry_geometry() -> Sweep {
     // three entries of different kinds; the data section ends with the text of the last one
@@ -500,6 +531,7 @@ pub fn sweeps(ctx: &Ctx) -> Vec<Sweep> {
     v.push(run_empty_and_truncated());
     v.push(run_section_edges());
     v.push(run_entry_geometry());
+    v.push(run_entry_counts());
     v
 }
 
